@@ -89,7 +89,7 @@ def canon(x, depth=0):
     if x is None or isinstance(x, (bool, str)):
         return x
     if isinstance(x, int):
-        return x if -2 ** 63 <= x < 2 ** 63 else {'int': str(x)}
+        return x if -2 ** 63 <= x < 2 ** 63 else {'int': hex(x)}
     if isinstance(x, float):
         if math.isnan(x):
             return {'f': 'nan'}
